@@ -11,50 +11,72 @@ EXPLANATION = ("the real EventManager (any mix of pulse / rising / falling / lev
                "next-state function written from the docstrings: (a) ONE STEP FROM AN ARBITRARY STATE (every pending/edge-sample/strobe "
                "register value, every trigger input, every CSR bus access) the DUT's pending bits, irq, status and clear behaviour equal the "
                "reference - this covers all histories, in particular a trigger in the very cycle of the write-one-to-clear and clearing one "
-               "bit while others are pending; (b) BMC from reset through the CSR bus as a cross-check; SharedIRQ is the OR (combinational).")
+               "bit while others are pending; (b) BMC from reset through the CSR bus as a cross-check; SharedIRQ is the OR (combinational); "
+               "(c) the real client cores Timer, GPIOIn(with_irq) and UART (with its FIFOs) behind a CSRBank, BMC from reset: their managers obey the same "
+               "reference, their triggers are wired as documented (timer value==0, GPIO edge/change modes on the synchronised pad, TX FIFO not full / "
+               "RX FIFO not empty) and, for the UART, bytes cross the TX/RX FIFOs in order exactly once with the RX pop caused by clearing the rx event.")
 ASSUMPTIONS = ["the clear produced by a CSR write acts through CSRStatus' registered re/r, i.e. one cycle after the bus write (documented CSR timing)",
                "source mixes enumerated: every kind alone, and mixes of 2..4 sources in several orders (level before edge, edge before level)",
                "CSR bus: 32-bit words, we and re never both"]
-BOUNDS = {"quick": "one step from an arbitrary state (unbounded history) for 10 source mixes + BMC K=10 from reset for 3 mixes",
-          "thorough": "one step from an arbitrary state for 24 source mixes + BMC K=14 for 8 mixes"}
-OUTSIDE = "more than 4 sources per manager; CSR bus widths other than 32"
+BOUNDS = {"quick": "one step from an arbitrary state (unbounded history) for 10 source mixes + BMC K=10 from reset for 3 mixes; clients: BMC K=12..16 (UART FIFO depth 2, Timer width 4, GPIO 2 bits)",
+          "thorough": "one step from an arbitrary state for 24 source mixes + BMC K=14 for 8 mixes; clients: K=16..24, UART FIFO depth 2 and 4"}
+OUTSIDE = "more than 4 sources per manager (9 on the 8-bit bus); client cores other than Timer/GPIOIn/UART; UART FIFO depths > 4; schedules longer than K for the BMC obligations"
 FUNCS = ["litex.soc.interconnect.csr_eventmanager.EventSourcePulse", "litex.soc.interconnect.csr_eventmanager.EventSourceProcess",
          "litex.soc.interconnect.csr_eventmanager.EventSourceLevel", "litex.soc.interconnect.csr_eventmanager.EventManager.do_finalize",
          "litex.soc.interconnect.csr_eventmanager.SharedIRQ", "litex.soc.interconnect.csr.CSRStatus", "litex.soc.interconnect.csr.CSRStorage",
-         "litex.soc.interconnect.csr_bus.CSRBank"]
+         "litex.soc.interconnect.csr_bus.CSRBank", "litex.soc.cores.timer.Timer", "litex.soc.cores.gpio._GPIOIRQ.add_irq", "litex.soc.cores.uart.UART"]
 
 
 class EvMon(Mon):
-    def __init__(self, kinds, step, busw=32):
+    def __init__(self, kinds, step, busw=32, client=None):
         from litex.soc.interconnect import csr_eventmanager as em, csr_bus
-        self.submodules.ev = ev = em.EventManager()
-        srcs = []
-        for i, k in enumerate(kinds):
-            nm = "e%d" % i
-            if k == "pulse":
-                s = em.EventSourcePulse(name=nm)
-            elif k == "rising":
-                s = em.EventSourceProcess(name=nm, edge="rising")
-            elif k == "falling":
-                s = em.EventSourceProcess(name=nm, edge="falling")
-            else:
-                s = em.EventSourceLevel(name=nm)
-            setattr(ev, nm, s)
-            srcs.append(s)
-        ev.finalize()
+        self.client = None
+        if client is not None:
+            # a real client core (UART, Timer, GPIOIn): its own EventManager, its sources in the documented bit order, all its CSRs in one bank
+            self.client = cl = client(self)
+            self.submodules.dut = cl["mod"]
+            ev, srcs, kinds = cl["ev"], cl["srcs"], cl["kinds"]
+            csrs = cl["mod"].get_csrs()
+            pfx = "ev_"
+        else:
+            self.submodules.ev = ev = em.EventManager()
+            srcs = []
+            for i, k in enumerate(kinds):
+                nm = "e%d" % i
+                if k == "pulse":
+                    s = em.EventSourcePulse(name=nm)
+                elif k == "rising":
+                    s = em.EventSourceProcess(name=nm, edge="rising")
+                elif k == "falling":
+                    s = em.EventSourceProcess(name=nm, edge="falling")
+                else:
+                    s = em.EventSourceLevel(name=nm)
+                setattr(ev, nm, s)
+                srcs.append(s)
+            ev.finalize()
+            csrs = ev.get_csrs()
+            pfx = ""
         n = len(kinds)
         self.bus = bus = csr_bus.Interface(data_width=busw, address_width=14)
-        csrs = ev.get_csrs()
         self.submodules.bank = bank = csr_bus.CSRBank(csrs, address=0, bus=bus)
         names = [c.name for c in csrs]
         nw = (n + busw - 1) // busw            # bus words per register (status, pending, enable all have n bits)
-        a_status, a_pending, a_enable = names.index("status") * nw, names.index("pending") * nw, names.index("enable") * nw
+
+        def addr_of(nm):                       # word address of a CSR = sum of the word counts of the CSRs before it (documented bank layout)
+            a = 0
+            for c in csrs:
+                if c.name == nm:
+                    return a
+                a += (c.size + busw - 1) // busw
+            raise KeyError(nm)
+        self.addr_of = addr_of
+        a_status, a_pending, a_enable = addr_of(pfx + "status"), addr_of(pfx + "pending"), addr_of(pfx + "enable")
 
         def chunk(k):          # bit range of bus word k of a register (big ordering: word 0 holds the most significant bits)
             lo = (nw - 1 - k) * busw
             return lo, min(n, lo + busw)
         trig = [s.trigger for s in srcs]
-        self.free = [bus.adr, bus.we, bus.re, bus.dat_w] + trig
+        self.free = [bus.adr, bus.we, bus.re, bus.dat_w] + (trig if client is None else list(self.client["free"]))
         self.asm = Signal(name_override="asm_bus")
         self.comb += self.asm.eq(~(bus.we & bus.re))
         mk = (lambda w, nm: Signal(w, name_override=nm)) if step else (lambda w, nm: self.reg(w, nm))
@@ -110,6 +132,11 @@ class EvMon(Mon):
         pcat = Cat(*pend_now)
         exp_r = Signal(busw)
         cases = {"default": exp_r.eq(0)}
+        is_ev_adr = Signal()
+        if client is None:
+            self.comb += is_ev_adr.eq(1)
+        else:
+            self.comb += is_ev_adr.eq((bus.adr >= min(a_status, a_pending, a_enable)) & (bus.adr < max(a_status, a_pending, a_enable) + nw))
         for k in range(nw):
             lo, hi = chunk(k)
             cases[a_status + k] = exp_r.eq(raw[lo:hi])
@@ -117,7 +144,7 @@ class EvMon(Mon):
             cases[a_enable + k] = exp_r.eq(ev.enable.storage[lo:hi])
         self.comb += Case(bus.adr, cases)
         p_exp = self.reg(busw, "p_exp"); p_chk = self.reg(1, "p_chk")
-        self.sync += [p_exp.eq(exp_r), p_chk.eq(bus.re)]
+        self.sync += [p_exp.eq(exp_r), p_chk.eq(bus.re & is_ev_adr)]
         self.bad_csr = Signal(name_override="bad_csr_view")
         self.comb += self.bad_csr.eq(p_chk & (bus.dat_r != p_exp))
         # enable register: plain storage
@@ -144,6 +171,13 @@ class EvMon(Mon):
                 t = t | (sh_re & sh_r[i] & fire & sh_p[i])
         self.comb += self.w_clr.eq(t)
         self.showl = [bus.adr, bus.we, bus.re, bus.dat_w, bus.dat_r, ev.irq] + trig + [s.pending for s in srcs]
+        self.clear_ref = [sh_re & sh_r[i] for i in range(n)]      # reference clear strobes (one cycle after the bus write)
+        self.wits = {}
+        if self.client is not None:
+            extra = self.client["finish"](self)
+            self.bads.update(extra.get("bads", {}))
+            self.wits.update(extra.get("wit", {}))
+            self.showl += extra.get("show", [])
 
 
 def build(kinds, step, K, busw=32):
@@ -156,6 +190,143 @@ def build(kinds, step, K, busw=32):
         return H(name, m, m.free, assume=[m.asm], inv=[m.inv, m.inv2], bad=m.bads, witness=wit, K=1, mode="step", init_reset=m.mregs, funcs=FUNCS,
                  cfg=dict(sources=kinds, obligation="one step from arbitrary state"), show=m.showl, vcycles=20)
     return H(name, m, m.free, assume=[m.asm], bad=m.bads, witness=wit, K=K, funcs=FUNCS, cfg=dict(sources=kinds, obligation="BMC from reset"), show=m.showl, vcycles=20)
+
+
+# ---- real client cores: the manager inside UART / Timer / GPIOIn(with_irq) against the same reference, plus the wiring of their triggers ----
+
+def client_timer(mon):
+    from litex.soc.cores.timer import Timer
+    t = Timer(width=4)
+    def finish(m):
+        value = find_sig(t, "value")
+        bad = Signal(name_override="bad_zero_trigger")
+        m.comb += bad.eq(t.ev.zero.trigger != (value == 0))
+        # black-box form: with en=1 and a non-zero one-shot load the event fires (pending bit) once the count has run out
+        w = Signal(name_override="w_zero_event_after_countdown")
+        seen_nz = m.reg(1, "seen_nonzero")
+        m.sync += If(value != 0, seen_nz.eq(1))
+        m.comb += w.eq(seen_nz & t.ev.zero.pending & t.ev.irq)
+        return dict(bads=dict(timer_zero_event_is_value_zero=bad), wit=dict(zero_event_after_countdown=w), show=[value])
+    return dict(mod=t, ev=t.ev, srcs=[t.ev.zero], kinds=["rising"], free=[], finish=finish)
+
+
+def client_gpio(mon, nbits=2):
+    from litex.soc.cores.gpio import GPIOIn
+    pads = Signal(nbits, name_override="pads")
+    g = GPIOIn(pads, with_irq=True)
+    srcs = [getattr(g.ev, "i%d" % i) for i in range(nbits)]
+    def finish(m):
+        inp = g._in.status                      # synchronised input as software sees it
+        in_d = [m.reg(1, "sh_in_d%d" % i) for i in range(nbits)]
+        bad = 0
+        chg = 0
+        for i in range(nbits):
+            m.sync += in_d[i].eq(inp[i])
+            exp = Mux(g._mode.storage[i], inp[i] ^ in_d[i], inp[i] ^ g._edge.storage[i])
+            bad = bad | (srcs[i].trigger != exp)
+            chg = chg | (g._mode.storage[i] & (inp[i] != in_d[i]) & srcs[i].trigger)
+        b = Signal(name_override="bad_gpio_trigger")
+        m.comb += b.eq(bad)
+        # the input seen by the event logic is the pad two cycles earlier (two-flop synchroniser), never anything else
+        p1 = m.reg(nbits, "sh_pad1"); p2 = m.reg(nbits, "sh_pad2")
+        m.sync += [p1.eq(pads), p2.eq(p1)]
+        b2 = Signal(name_override="bad_gpio_in_sync")
+        m.comb += b2.eq(inp != p2)
+        w = Signal(name_override="w_change_mode_event")
+        m.comb += w.eq(chg)
+        wf = Signal(name_override="w_falling_edge_mode_pending")
+        m.comb += wf.eq(g._edge.storage[0] & ~g._mode.storage[0] & srcs[0].pending & ~inp[0])
+        return dict(bads=dict(gpio_trigger_follows_mode_and_edge=b, gpio_input_is_synchronised_pad=b2), wit=dict(change_mode_event=w, falling_edge_mode_pending=wf), show=[pads, inp])
+    return dict(mod=g, ev=g.ev, srcs=srcs, kinds=["rising"] * nbits, free=[pads], finish=finish)
+
+
+def client_uart(mon, depth=2, rx_we=False):
+    from litex.soc.cores.uart import UART
+    u = UART(phy=None, tx_fifo_depth=depth, rx_fifo_depth=depth, rx_fifo_rx_we=rx_we)
+    def finish(m):
+        bus = m.bus
+        a_rxtx = m.addr_of("rxtx")
+        cw = 4
+        # ---- TX: a byte written to RXTX while TXFULL reads 0 is transmitted exactly once, in order; a write while full is dropped entirely
+        wr = Signal(name_override="tx_write")
+        m.comb += wr.eq(bus.we & (bus.adr == a_rxtx) & ~u._txfull.status)
+        src_hs = Signal(name_override="tx_out_hs")
+        m.comb += src_hs.eq(u.source.valid & u.source.ready)
+        tin = m.reg(cw, "tx_in_cnt"); tout = m.reg(cw, "tx_out_cnt")
+        m.sync += [If(wr, tin.eq(tin + 1)), If(src_hs, tout.eq(tout + 1))]
+        m.N = N = Signal(cw, name_override="N")
+        capt = m.reg(8, "tx_cap")
+        m.sync += If(wr & (tin == N), capt.eq(bus.dat_w[:8]))
+        bad_tx = Signal(name_override="bad_tx_data"); bad_tx_sp = Signal(name_override="bad_tx_spurious")
+        m.comb += [bad_tx.eq(src_hs & (tout == N) & (tin > N) & (u.source.data != capt)), bad_tx_sp.eq(src_hs & (tout == tin))]
+        # producer-side stability of the stream towards the PHY (C04 form) while it back-pressures
+        s_p = m.reg(1, "tx_s_pend"); s_d = m.reg(8, "tx_s_data")
+        m.sync += [s_p.eq(u.source.valid & ~u.source.ready), s_d.eq(u.source.data)]
+        bad_tx_st = Signal(name_override="bad_tx_stable")
+        m.comb += bad_tx_st.eq(s_p & (~u.source.valid | (u.source.data != s_d)))
+        # full flag is not raised while fewer than `depth` bytes are inside (capacity promise); empty flag truthful
+        occ = Signal(cw)
+        m.comb += occ.eq(tin - tout)
+        bad_full = Signal(name_override="bad_txfull_early")
+        m.comb += bad_full.eq(u._txfull.status & (occ < depth))
+        bad_te = Signal(name_override="bad_txempty")
+        m.comb += bad_te.eq(~u._txempty.status & (occ == 0))
+        # ---- RX: bytes accepted from the PHY are presented in order at RXTX; a pop = clear of the rx event (write-one-to-clear, one cycle later)
+        #      or, when rx_fifo_rx_we, a bus read of RXTX
+        snk_hs = Signal(name_override="rx_in_hs")
+        m.comb += snk_hs.eq(u.sink.valid & u.sink.ready)
+        pop = Signal(name_override="rx_pop")
+        popreq = m.clear_ref[1] | ((bus.re & (bus.adr == a_rxtx)) if rx_we else 0)
+        m.comb += pop.eq(popreq & ~u._rxempty.status)
+        rin = m.reg(cw, "rx_in_cnt"); rout = m.reg(cw, "rx_out_cnt")
+        m.sync += [If(snk_hs, rin.eq(rin + 1)), If(pop, rout.eq(rout + 1))]
+        m.M = M = Signal(cw, name_override="M")
+        capr = m.reg(8, "rx_cap")
+        m.sync += If(snk_hs & (rin == M), capr.eq(u.sink.data))
+        bad_rx = Signal(name_override="bad_rx_data"); bad_rx_sp = Signal(name_override="bad_rx_spurious")
+        m.comb += [bad_rx.eq(~u._rxempty.status & (rout == M) & (rin > M) & (u._rxtx.w != capr)), bad_rx_sp.eq(~u._rxempty.status & (rout == rin))]
+        # software view: a bus read of RXTX returns that byte one cycle later
+        rd_chk = m.reg(1, "rx_rd_chk"); rd_exp = m.reg(8, "rx_rd_exp")
+        m.sync += [rd_chk.eq(bus.re & (bus.adr == a_rxtx) & ~u._rxempty.status), rd_exp.eq(u._rxtx.w)]
+        bad_rd = Signal(name_override="bad_rxtx_read")
+        m.comb += bad_rd.eq(rd_chk & (bus.dat_r[:8] != rd_exp))
+        rocc = Signal(cw)
+        m.comb += rocc.eq(rin - rout)
+        bad_rfull = Signal(name_override="bad_rxfull_early")
+        m.comb += bad_rfull.eq(u._rxfull.status & (rocc < depth))
+        bad_rxfull_flag = Signal(name_override="bad_rx_ready_vs_full")
+        m.comb += bad_rxfull_flag.eq(u._rxfull.status == u.sink.ready)
+        # ---- event wiring: tx event = TX FIFO became non-full, rx event = RX FIFO became non-empty
+        bad_tr = Signal(name_override="bad_uart_triggers")
+        m.comb += bad_tr.eq((u.ev.tx.trigger == u._txfull.status) | (u.ev.rx.trigger == u._rxempty.status))
+        no_ovf = Signal(name_override="asm_no_cnt_ovf")
+        m.comb += no_ovf.eq((tin != 2**cw - 1) & (rin != 2**cw - 1))
+        m.extra_assume = [no_ovf]
+        w_tx = Signal(name_override="w_tx_bytes"); w_rx = Signal(name_override="w_rx_bytes"); w_full = Signal(name_override="w_tx_full_write_dropped")
+        m.comb += [w_tx.eq(tout >= depth + 2), w_rx.eq(rout >= depth + 1), w_full.eq(bus.we & (bus.adr == a_rxtx) & u._txfull.status)]
+        w_rxpend = Signal(name_override="w_rx_event_pending_again_after_pop")
+        m.comb += w_rxpend.eq((rout >= 1) & u.ev.rx.pending & ~u._rxempty.status)
+        return dict(bads=dict(uart_tx_bytes_in_order=bad_tx, uart_tx_no_spurious_byte=bad_tx_sp, uart_tx_stable_under_backpressure=bad_tx_st,
+                              uart_txfull_only_when_full=bad_full, uart_txempty_truthful=bad_te,
+                              uart_rx_bytes_in_order=bad_rx, uart_rx_nonempty_only_with_data=bad_rx_sp, uart_rxtx_read_returns_head=bad_rd,
+                              uart_rxfull_only_when_full=bad_rfull, uart_rxfull_is_not_ready=bad_rxfull_flag, uart_event_triggers_wired=bad_tr),
+                    wit=dict(tx_bytes_through=w_tx, rx_bytes_popped=w_rx, write_while_full=w_full, rx_event_again_after_pop=w_rxpend),
+                    show=[u.sink.valid, u.sink.ready, u.sink.data, u.source.valid, u.source.ready, u.source.data, u._rxtx.w, u._txfull.status, u._rxempty.status])
+    return dict(mod=u, ev=u.ev, srcs=[u.ev.tx, u.ev.rx], kinds=["rising", "rising"], free=[u.sink.valid, u.sink.data, u.source.ready], finish=finish)
+
+
+CLIENTS = dict(timer=client_timer, gpio=client_gpio, uart=client_uart, uart_rxwe=lambda m: client_uart(m, rx_we=True), uart_d4=lambda m: client_uart(m, depth=4))
+CLIENT_FUNCS = dict(timer=["litex.soc.cores.timer.Timer"], gpio=["litex.soc.cores.gpio._GPIOIRQ.add_irq", "litex.soc.cores.gpio.GPIOIn"],
+                    uart=["litex.soc.cores.uart.UART", "litex.soc.cores.uart._get_uart_fifo"])
+
+
+def build_client(which, K):
+    m = EvMon(None, False, 32, client=CLIENTS[which])
+    wit = dict(irq_raised=m.w_irq, trigger_coincides_with_clear=m.w_clr)
+    wit.update(m.wits)
+    rigid = [x for x in (getattr(m, "N", None), getattr(m, "M", None)) if x is not None]
+    return H("client_" + which, m, m.free, rigid=rigid, assume=[m.asm] + list(getattr(m, "extra_assume", [])), bad=m.bads, witness=wit, K=K,
+             funcs=FUNCS + CLIENT_FUNCS[which.split("_")[0]], cfg=dict(client=which, obligation="BMC from reset through the CSR bus"), show=m.showl, vcycles=30)
 
 
 class SharedMon(Mon):
@@ -217,6 +388,12 @@ def jobs(tier):
     js.append(Job("evm_step_9sources_bus8", build, dict(kinds=wide, step=True, K=1, busw=8), cost=2))
     js.append(Job("evm_bmc_9sources_bus8", build, dict(kinds=wide, step=False, K=10 if not T else 14, busw=8), cost=6))
     js.append(Job("shared_irq", build_shared, {}))
+    js.append(Job("client_timer", build_client, dict(which="timer", K=16 if not T else 22), cost=4))
+    js.append(Job("client_gpio", build_client, dict(which="gpio", K=12 if not T else 16), cost=4))
+    js.append(Job("client_uart", build_client, dict(which="uart", K=16 if not T else 22), cost=20))
+    js.append(Job("client_uart_rxwe", build_client, dict(which="uart_rxwe", K=14 if not T else 18), cost=20))
+    if T:
+        js.append(Job("client_uart_d4", build_client, dict(which="uart_d4", K=24), cost=60))
     return js
 
 
